@@ -51,6 +51,13 @@ def gen_cases(ck):
                       "angle": float(ck.rng.uniform(0, 6.28)), "scale": float(10.0 ** ck.rng.uniform(-1, 1)), "noise": float(ck.rng.choice([0.0, 0.005])),
                       "rhs": "velocity", "dt": float(10.0 ** ck.rng.uniform(-1, 1)), "vel_amp": float(ck.rng.choice([1.0, 3.0])),
                       "method": None, "allow_negatives": bool(i % 2), "fit": "dlite", "negative_at": "any"})
+    for i in range(3 if ck.tier == "quick" else 16):
+        # square systems tuned so that the exact solution has one tension *just* below zero (between -4e-4 and -2e-5): a negative
+        # tension however small must send the inversion path to its non-negative fallback when negatives are disallowed
+        cases.append({"type": "tissue", "seed": int(ck.rng.integers(1 << 30)), "tissue": ["random", "jitter"][i % 2], "sites": int(ck.rng.integers(40, 70)),
+                      "flower": True, "min_ridge": 0.003, "mobius": False, "kmin": 0, "kmax": 0,
+                      "angle": float(ck.rng.uniform(0, 6.28)), "scale": 1.0, "noise": 0.03, "rhs": "static",
+                      "method": None, "allow_negatives": False, "fit": "dlite", "negative_at": "tiny"})
     return cases
 
 
@@ -76,6 +83,30 @@ def place_negative(case):
     that interface is the first / the last unknown"""
     want = case.get("negative_at")
     if want in (None, "any") or "variant" in case:
+        return case
+    if want == "tiny":
+        lo = hi = None
+        for noise in np.geomspace(1e-3, 0.3, 60):
+            z = exact_solution(dict(case, noise=float(noise), variant=0))
+            if z is None:
+                return case
+            if min(z[:-1]) < 0:
+                hi = float(noise); break
+            lo = float(noise)
+        if lo is None or hi is None:
+            return case
+        for _ in range(50):
+            mid = 0.5 * (lo + hi)
+            z = exact_solution(dict(case, noise=mid, variant=0))
+            if z is None:
+                return case
+            m = float(min(z[:-1]))
+            if -4e-4 < m < -2e-5:
+                return dict(case, noise=mid, variant=0)
+            if m >= -2e-5:
+                lo = mid
+            else:
+                hi = mid
         return case
     found = None
     for noise in np.geomspace(1e-3, 0.3, 240):
